@@ -158,6 +158,12 @@ class Data:
                  tuple(l.index for l in c.lower_neighbors))
                 for c in self._concepts]
 
+    def __copy__(self):
+        """Return a shallow copy sharing context and (linked) concepts."""
+        inst = object.__new__(self.__class__)
+        self._init(inst, self._context, self._concepts, unpickle=True)
+        return inst
+
     def _eq(self, other) -> typing.Union[type(NotImplemented), bool]:
         """Return ``True`` if two lattices are equivalent.
 
